@@ -94,12 +94,11 @@ class Solver:
 
         self._state_metadata = {
             'dims': state._dims,
-            # This is herm flag take for granted that the liouvillian keep
-            # hermiticity.  But we do not check user passed super operator for
-            # anything other than dimensions.
-            'isherm': (
-                not (self.rhs.dims == state.dims) and state._isherm
-            ) or None,
+            # The evolution is not checked to keep hermiticity (user passed
+            # superoperator, non-hermitian Hamiltonian): the cached flag of
+            # the initial state is not forwarded, each output is checked when
+            # its `isherm` is first read.
+            'isherm': None,
         }
         if state.isket:
             norm = state.norm()
